@@ -26,6 +26,8 @@ OpTemplates == {T2("let", "    let k = ", o, "\n") : o \in BinOps}
                \cup {T2("row", "A1[", o, "] * x <= 9") : o \in BinOps}
                \cup {T2("row", "sum(i in 0..(", o, ")) { x_i } <= 2") : o \in BinOps}
                \cup {T2("row", "(", o, ") + x <= 2") : o \in BinOps}
+               \* a bound of IntegerRange: the one position that wants an integer kind exactly
+               \cup {T2("decl", "\n    w as IntegerRange(0, ", o, ")") : o \in BinOps}
 OpFillers == {"2", "-1", "1.5", "0", "true", "B1", "\"s\"", "S1", "A1", "G", "M2[0]", "x", "p"}
 RowTemplates == {
    T("row", "x + ", " <= 3"), T("row", "", " * x <= 3"), T("row", "x <= ", ""), T("row", "x / ", " <= 3"), T("row", "x - (", " + 1) >= 0"),
